@@ -382,7 +382,7 @@ ASSUMED = ["operator contracts of contracts/layerT.h (smoothing, residual, trans
            "they are the statements decided for the real operators in C03/C04/C06/C07/C08 (Layer R)",
            "cycle contracts (functional specification MG/EMG) are enforced on the real cycle bodies in check C10",
            "scalars of the driver (norms, tolerances, factors) are an ordered uninterpreted sort: quotient, sqrt, pow, literals uninterpreted",
-           "setup() establishes full_grid_smoothing_ == (extrapolation != IMPLICIT_EXTRAPOLATION) (src/GMGPolar/setup.cpp) -- precondition",
+           "setup() establishes full_grid_smoothing_ == (extrapolation != IMPLICIT_EXTRAPOLATION): precondition of solve(), DECIDED by the setup-tail job of C01/C13",
            "number of levels symbolic in 2..%d; iteration and smoothing counts unbounded" % MAXL]
 TRUSTED = ["CBMC 6.11 (SAT back end)", "goto-instrument --apply-loop-contracts / --unwindset",
            "contract encoding of tools/layert.py (assert requires / havoc assigns / assume ensures; assume requires / assert ensures + frame)",
@@ -391,12 +391,30 @@ DROPPED = ["timing statements (std::chrono, t_* accumulators)", "LIKWID markers"
            "writeToVTK calls", "dead block under `bool use_boundary_condition = false`"]
 
 
+SETUP_KEEP = {   # which obligations of the setup-tail job (props/setup_tail.py) belong to which property
+    "C01": r"OBL:(every level has a residual|exactly the coarsest|every smoothing level|the finest level has the extrapolated|full_grid_smoothing_|every operator is built|level index)",
+    "C09": r"OBL:(injection goes|the rhs is injected|a rhs is discretised|level l < k|no rhs is built|level index|exactly the coarsest)",
+    "C13": r"OBL:",
+}
+
+
 def run_property(pid, tier, seed, work, which, explanation):
     import vlib
     rep = vlib.Report(pid, tier, seed)
     jobs = build_jobs(which=which)
     vlib.run_jobs(jobs, work)
     rep.absorb(jobs, keep=absorb_filter(pid))
+    if pid in SETUP_KEEP:
+        import setup_tail
+        sj = setup_tail.build_jobs(tier, seed)
+        vlib.run_jobs(sj, work)
+        pat = re.compile(SETUP_KEEP[pid])
+        rep.absorb(sj, keep=lambda d: (not d.startswith("OBL:")) or bool(pat.match(d)))
+        explanation += (" Second half of setup() (props/setup_tail.py, plain CBMC, <= 8 levels, every extrapolation mode and FMG flag): the verbatim text "
+                        "from the interpolation object to the end of setup() over level / operator / rhs tokens: per-level operators exist exactly as "
+                        "solve() and the cycles need them, each built with the thread count of its level; full_grid_smoothing_ matches the mode (the "
+                        "precondition of the solve() contract); the rhs is injected before it is discretised and ends l-fold injected + discretised "
+                        "on every level that needs one (all levels with FMG).")
     rep.extraction = {"rules_fired": jobs[0].rules.summary(), "body_sha256_16": jobs[0].hashes, "dropped": DROPPED}
     rep.trusted, rep.assumptions = TRUSTED, ASSUMED
     return rep.finish("other", explanation,
